@@ -199,6 +199,29 @@ theorem pmt_extract_build {α : Type} (hh : α → α → α) (dflt : α) (leave
   rw [Pmt.extract_newMerkleBlock hh dflt leaves matched hne hlen,
     Pmt.matchedUnder_root dflt leaves matched hlen hn, Pmt.calcHash_root hh dflt leaves hne hn]
 
+/-- The same with Bitcoin Core's CVE-2012-2459 guard in the extractor (reject an inner node whose two
+    real children hash equal): it never fires on a built merkle block when no two sibling subtrees of
+    the block have equal hashes (true for a collision-free hash over distinct transactions). -/
+theorem pmt_extract_build_strict {α : Type} [DecidableEq α] (hh : α → α → α) (dflt : α)
+    (leaves : List α) (matched : List Bool) (hne : leaves ≠ []) (hlen : matched.length = leaves.length)
+    (hn : leaves.length ≤ 2 ^ 64) (hd : Pmt.DistinctSiblings hh dflt leaves) :
+    Pmt.extractStrict hh leaves.length (Pmt.packFlags (Pmt.newMerkleBlock hh dflt leaves matched).bits)
+        (Pmt.newMerkleBlock hh dflt leaves matched).hashes
+      = some (Pmt.merkleRoot hh dflt leaves,
+              ((List.range leaves.length).filter (fun i => matched.getD i false)).map
+                (fun i => (i, leaves.getD i dflt))) := by
+  rw [Pmt.extractStrict_newMerkleBlock hh dflt leaves matched hne hlen hd,
+    Pmt.matchedUnder_root dflt leaves matched hlen hn, Pmt.calcHash_root hh dflt leaves hne hn]
+
+example : Pmt.DistinctSiblings (fun (a b : Nat) => a + b) 0 [7] := by
+  intro h pos hw
+  have : Pmt.width 1 h = 1 := by
+    unfold Pmt.width
+    have hp : 0 < 2 ^ h := Nat.pow_pos (by decide)
+    rw [show 1 + 2 ^ h - 1 = 2 ^ h by omega, Nat.div_self hp]
+  simp only [List.length_cons, List.length_nil, Nat.zero_add, this] at hw
+  omega
+
 /-- the index list `NewMerkleBlock` returns is the same matched set -/
 theorem pmt_matched_indices {α : Type} (hh : α → α → α) (dflt : α) (leaves : List α) (matched : List Bool) :
     (Pmt.newMerkleBlock hh dflt leaves matched).matchedIdx =
